@@ -136,3 +136,128 @@ Theorem C19_group_is_regular :
     step a (IsRoute (Group r)) = step a (IsRegular r).
 Proof. exact group_is_regular. Qed.
 Print Assumptions C19_group_is_regular.
+
+(* ------------------------------------------------------------------------
+   Translator tie (TTIE.md): gen/RegistryGen.v is regenerated on every run
+   by harness/py2v_registry.py from the registration methods of
+   poorwsgi/wsgi.py Application (and the dict state.methods).  Each
+   generated method -- a function  app -> arguments -> app * outcome  that
+   threads the state through the statements of the Python method -- equals
+   [step] of the model on the corresponding operation, for every state and
+   all arguments (identifiers and the method mask are ints; a uri is
+   [Group r] when re_filter matches it, else [Static p]). *)
+Require Import PW.lib.PyRegistry PW.gen.RegistryGen PW.proofs.RegistryGenEq.
+
+Theorem C19_generated_add_before_response_is_model :
+  forall a f, gen_add_before_response a f = step a (AddBefore f).
+Proof. exact gen_add_before_is_model. Qed.
+Print Assumptions C19_generated_add_before_response_is_model.
+
+Theorem C19_generated_pop_before_response_is_model :
+  forall a f, gen_pop_before_response a f = step a (PopBefore f).
+Proof. exact gen_pop_before_is_model. Qed.
+Print Assumptions C19_generated_pop_before_response_is_model.
+
+Theorem C19_generated_add_after_response_is_model :
+  forall a f, gen_add_after_response a f = step a (AddAfter f).
+Proof. exact gen_add_after_is_model. Qed.
+Print Assumptions C19_generated_add_after_response_is_model.
+
+Theorem C19_generated_pop_after_response_is_model :
+  forall a f, gen_pop_after_response a f = step a (PopAfter f).
+Proof. exact gen_pop_after_is_model. Qed.
+Print Assumptions C19_generated_pop_after_response_is_model.
+
+Theorem C19_generated_add_before_request_is_model :
+  forall a f, gen_add_before_request a f = step a (AddBefore f).
+Proof. exact gen_add_before_request_is_model. Qed.
+Print Assumptions C19_generated_add_before_request_is_model.
+
+Theorem C19_generated_pop_before_request_is_model :
+  forall a f, gen_pop_before_request a f = step a (PopBefore f).
+Proof. exact gen_pop_before_request_is_model. Qed.
+Print Assumptions C19_generated_pop_before_request_is_model.
+
+Theorem C19_generated_add_after_request_is_model :
+  forall a f, gen_add_after_request a f = step a (AddAfter f).
+Proof. exact gen_add_after_request_is_model. Qed.
+Print Assumptions C19_generated_add_after_request_is_model.
+
+Theorem C19_generated_pop_after_request_is_model :
+  forall a f, gen_pop_after_request a f = step a (PopAfter f).
+Proof. exact gen_pop_after_request_is_model. Qed.
+Print Assumptions C19_generated_pop_after_request_is_model.
+
+Theorem C19_generated_set_default_is_model :
+  forall a f mask, gen_set_default a f mask = step a (SetDefault f mask).
+Proof. exact gen_set_default_is_model. Qed.
+Print Assumptions C19_generated_set_default_is_model.
+
+Theorem C19_generated_pop_default_is_model :
+  forall a m, gen_pop_default a m = step a (PopDefault m).
+Proof. exact gen_pop_default_is_model. Qed.
+Print Assumptions C19_generated_pop_default_is_model.
+
+Theorem C19_generated_set_route_is_model :
+  forall a u f mask, gen_set_route a u f mask = step a (SetRoute u f mask).
+Proof. exact gen_set_route_is_model. Qed.
+Print Assumptions C19_generated_set_route_is_model.
+
+Theorem C19_generated_pop_route_is_model :
+  forall a u m, gen_pop_route a u m = step a (PopRoute u m).
+Proof. exact gen_pop_route_is_model. Qed.
+Print Assumptions C19_generated_pop_route_is_model.
+
+Theorem C19_generated_is_route_is_model :
+  forall a u, gen_is_route a u = step a (IsRoute u).
+Proof. exact gen_is_route_is_model. Qed.
+Print Assumptions C19_generated_is_route_is_model.
+
+Theorem C19_generated_set_regular_route_is_model :
+  forall a r f mask, gen_set_regular_route a r f mask = step a (SetRegular r f mask).
+Proof. exact gen_set_regular_is_model. Qed.
+Print Assumptions C19_generated_set_regular_route_is_model.
+
+Theorem C19_generated_pop_regular_route_is_model :
+  forall a r m, gen_pop_regular_route a r m = step a (PopRegular r m).
+Proof. exact gen_pop_regular_is_model. Qed.
+Print Assumptions C19_generated_pop_regular_route_is_model.
+
+Theorem C19_generated_is_regular_route_is_model :
+  forall a r, gen_is_regular_route a r = step a (IsRegular r).
+Proof. exact gen_is_regular_is_model. Qed.
+Print Assumptions C19_generated_is_regular_route_is_model.
+
+Theorem C19_generated_set_http_state_is_model :
+  forall a code f mask, gen_set_http_state a code f mask = step a (SetState code f mask).
+Proof. exact gen_set_state_is_model. Qed.
+Print Assumptions C19_generated_set_http_state_is_model.
+
+Theorem C19_generated_pop_http_state_is_model :
+  forall a code m, gen_pop_http_state a code m = step a (PopState code m).
+Proof. exact gen_pop_state_is_model. Qed.
+Print Assumptions C19_generated_pop_http_state_is_model.
+
+Theorem C19_generated_set_error_handler_is_model :
+  forall a e f mask, gen_set_error_handler a e f mask = step a (SetError e f mask).
+Proof. exact gen_set_error_is_model. Qed.
+Print Assumptions C19_generated_set_error_handler_is_model.
+
+Theorem C19_generated_pop_error_handler_is_model :
+  forall a e m, gen_pop_error_handler a e m = step a (PopError e m).
+Proof. exact gen_pop_error_is_model. Qed.
+Print Assumptions C19_generated_pop_error_handler_is_model.
+
+(* `for val in methods.values()` iterates over the method bits of the model *)
+Theorem C19_generated_methods_is_model : gen_methods_values = meths.
+Proof. exact gen_methods_is_model. Qed.
+Print Assumptions C19_generated_methods_is_model.
+
+(* default masks of the signatures: METHOD_HEAD | METHOD_GET for defaults and
+   routes, METHOD_HEAD | METHOD_GET | METHOD_POST for states and errors *)
+Theorem C19_generated_default_masks :
+  gen_set_default_default_2 = 3 /\ gen_set_route_default_3 = 3 /\
+  gen_set_regular_route_default_3 = 3 /\ gen_set_http_state_default_3 = 7 /\
+  gen_set_error_handler_default_3 = 7.
+Proof. exact gen_default_masks. Qed.
+Print Assumptions C19_generated_default_masks.
